@@ -708,7 +708,7 @@ PLANS = {
                 mc=[mc_job("nc_cross", "MC_Netcode", {"quick": ["MC_NC_q1.cfg"], "thorough": ["MC_NC_q1.cfg", "MC_NC_q3.cfg", "MC_NC_bad.cfg"]}, ["C19"], strict=False)],
                 level="model_checking", assumptions=NC_ASSUME),
     "C01": Plan("msg", "TraceRenetMon", ["C01"], [("random_ro", g_random_ro), ("random_mixed", g_random_mixed)],
-                mc=[mc_job("conn_ro", "MC_Conn", {"quick": ["MC_C01_q1.cfg"], "thorough": ["MC_C01_q1.cfg", "MC_C01_t1.cfg"]}, ["C01"])],
+                mc=[mc_job("conn_ro", "MC_Conn", {"quick": ["MC_C01_q1.cfg"], "thorough": ["MC_C01_q1.cfg", "MC_C01_t1.cfg", "MC_C01_t2.cfg"]}, ["C01"])],
                 level="model_checking", assumptions=MSG_ASSUME),
     "C02": Plan("msg", "TraceRenetMon", ["C02"], [("random_ru", g_random_ru), ("random_mixed", g_random_mixed)],
                 mc=[mc_job("conn_ru", "MC_Conn", {"quick": ["MC_C02_q1.cfg", "MC_C02_q2.cfg", "MC_C02_t1.cfg"], "thorough": ["MC_C02_q1.cfg", "MC_C02_q2.cfg", "MC_C02_t1.cfg"]}, ["C02"], cap_q=400)],
